@@ -84,7 +84,7 @@ class P(Prop):
         out = []
         for _ in range(self.n_cases(tier, override)):
             mech = rng.random() < 0.3
-            c = sysrun.gen_electric_case(rng, n=rng.randint(1, 6), max_swb=2)
+            c = sysrun.gen_electric_case(rng, n=rng.choice([1, 2, 3, 4, 5, 6, 6, 7, 12, 14]), max_swb=2)
             comps = c["plant"]["comps"]
             # two gensets with the same name on different switchboards, loaded differently
             if len(c["plant"]["swbs"]) == 2 and rng.random() < 0.5:
@@ -102,10 +102,28 @@ class P(Prop):
                 c["mech"] = {"plant": m["plant"], "inp": {**m["inp"], "comps": [ci for d, ci in zip(m["plant"]["mech"], m["inp"]["comps"])]}}
                 # inputs were generated before PTI/PTOs were dropped: regenerate consistently
                 c["mech"]["inp"] = pg.gen_mechanical_inputs(rng, c["mech"]["plant"], n=c["inp"]["n"])
+            # a main engine with the name AND node number of a genset (shaft-line ids and switchboard ids are
+            # separate numberings)
+            if c["mech"] and rng.random() < 0.5:
+                gs = [d for d in comps if d["cls"] in ("genset", "genset_rect", "genset_df")]
+                me = [d for d in c["mech"]["plant"]["mech"] if d["cls"] in ("main_engine", "main_engine_gb")]
+                if gs and me:
+                    g, m = rng.choice(gs), rng.choice(me)
+                    lines = {d["line"] for d in c["mech"]["plant"]["mech"]}
+                    if g["swb"] == m["line"] or g["swb"] not in lines:
+                        old_line = m["line"]
+                        for d in c["mech"]["plant"]["mech"]:
+                            if d["line"] == old_line:
+                                d["line"] = g["swb"]
+                        c["mech"]["plant"]["lines"] = sorted({d["line"] for d in c["mech"]["plant"]["mech"]})
+                        m["name"] = g["name"]
+                        c["same_name_across_subsystems"] = True
             c["series"] = rng.random() < 0.6
-            c["scalar_dt"] = rng.random() < 0.25 and c["inp"]["n"] >= 2
+            c["scalar_dt"] = rng.random() < 0.3 and c["inp"]["n"] >= 2
             if c["scalar_dt"]:
-                c["inp"]["dt"] = [c["inp"]["dt"][0]] * c["inp"]["n"]
+                # also steps that are not whole seconds, with series lengths at which a float arange overshoots
+                dt0 = rng.choice([c["inp"]["dt"][0], Fraction(1, 10), Fraction(1, 5), Fraction(3, 10), Fraction(7, 10), Fraction(6, 5)])
+                c["inp"]["dt"] = [dt0] * c["inp"]["n"]
             c["with_ts_message"] = rng.random() < 0.3
             c["fuel_spec"] = rng.choice(["IMO", "IMO", "FUEL_EU_MARITIME"])
             out.append(c)
@@ -163,10 +181,10 @@ class P(Prop):
                "has_mech_msg": msg.HasField("mechanical_system")}
         comp = {}
         for d, o in zip(plant["comps"], eobjs):
-            comp[(o.name, int(o.switchboard_id))] = [float(x) for x in np.atleast_1d(o.power_output)]
+            comp[(o.name, int(o.switchboard_id), 0)] = [float(x) for x in np.atleast_1d(o.power_output)]
         for d, o in zip((case["mech"] or {"plant": {"mech": []}})["plant"]["mech"], mobjs):
-            comp[(o.name, int(o.shaft_line_id))] = [float(x) for x in np.atleast_1d(o.power_output)]
-        out["component_power"] = [[k[0], k[1], v] for k, v in comp.items()]
+            comp[(o.name, int(o.shaft_line_id), 1)] = [float(x) for x in np.atleast_1d(o.power_output)]
+        out["component_power"] = [[k[0], k[1], v, k[2]] for k, v in comp.items()]
         return out
 
     def term(self, case, obs):
@@ -198,9 +216,9 @@ class P(Prop):
         if "not_implemented" in obs:
             return ("per-component series requested: the export fails with NotImplementedError for a plant with " + ", ".join(obs["classes"])
                     + " (" + obs["not_implemented"] + ")")
-        power = {(a, b): v for a, b, v in obs["component_power"]}
+        power = {(r[0], r[1], r[3] if len(r) > 3 else 0): r[2] for r in obs["component_power"]}   # (name, node number, electric/mechanical)
         n = case["inp"]["n"]
-        for s, det, p in zip(obs["snaps"], obs["details"], obs["parsed"]):
+        for part, (s, det, p) in enumerate(zip(obs["snaps"], obs["details"], obs["parsed"])):
             if len(p["rows"]) != len(det):
                 return f"{len(p['rows'])} detail records for {len(det)} detail rows"
             for row, d in zip(p["rows"], det):
@@ -213,8 +231,8 @@ class P(Prop):
                 if abs(row["co2_wtw_noslip"] - row["co2_ttw_noslip"] - row["co2_wtt"]) > 1e-9 * max(1.0, abs(row["co2_wtw_noslip"])):
                     return (f"detail record {row['name']}@{row['node']}: well-to-wake without slip {row['co2_wtw_noslip']} is not tank-to-wake without slip "
                             f"{row['co2_ttw_noslip']} + well-to-tank {row['co2_wtt']}")
-                if case["series"] and (row["name"], row["node"]) in power:
-                    pw = power[(row["name"], row["node"])]
+                if case["series"] and (row["name"], row["node"], part) in power:
+                    pw = power[(row["name"], row["node"], part)]
                     if len(row["power"]) != len(pw) or any(abs(a - b) > 1e-9 * max(1.0, abs(b)) for a, b in zip(row["power"], pw)):
                         return f"detail record {row['name']}@{row['node']}: power series {row['power']} is not the component's {pw}"
                     if len(row["time"]) != n:
@@ -241,6 +259,10 @@ class P(Prop):
              "spec=" + case["fuel_spec"]]
         if case.get("same_name"):
             t.append("two-components-with-the-same-name")
+        if case.get("same_name_across_subsystems"):
+            t.append("main-engine-with-name-and-node-number-of-a-genset")
+        if case["scalar_dt"] and case["inp"]["dt"][0] != int(case["inp"]["dt"][0]):
+            t.append("scalar-interval-not-whole-seconds")
         if "rejected" in obs:
             t.append("rejected:" + obs["rejected"].split(":")[0])
         if "not_implemented" in obs:
